@@ -762,7 +762,9 @@ class CSSCalc(CSSFunction):
 
         prods = Sequence(Prod(name='CALC',
                               match=lambda t, v: t == types.FUNCTION and
-                              normalize(v) == 'calc('
+                              normalize(v) == 'calc(',
+                              toSeq=lambda t, tokens: (t[0],
+                                                       normalize(t[1]))
                               ),
                          PreDef.S(optional=True),
                          _operant(),
